@@ -28,6 +28,9 @@ class Unsupported(Exception):
   pass
 
 
+OPTIONS = {}      # 'div0_to_nan': x / 0-constant yields the constant NaN (missing value) instead of aborting
+
+
 class NonFiniteConstant(Exception):
   """A non-finite float constant reached an arithmetic operation with symbolic data."""
 
@@ -135,9 +138,12 @@ class Interp:
     if not any(is_sym(x) for x in ins):
       return self.concrete(prim, params, ins)
     self.sym_prims[name] += 1
-    for x in ins:
-      if isinstance(x, np.ndarray) and x.dtype.kind == 'f' and x.size and not np.all(np.isfinite(x)):
-        raise NonFiniteConstant(f'non-finite constant operand of {name} (shape {x.shape})')
+    if name not in STRUCTURAL and name != 'convert_element_type':
+      for x in ins:
+        if isinstance(x, np.ndarray) and x.dtype.kind == 'f' and x.size and not np.all(np.isfinite(x)):
+          raise NonFiniteConstant(f'non-finite constant operand of {name} (shape {x.shape})')
+    if name == 'ne' and eqn is not None and len(eqn.invars) == 2 and eqn.invars[0] is eqn.invars[1] and isinstance(ins[0], PolyArr):
+      return ins[0].nan_rows()          # jnp.isnan(x): only constant NaN entries (missing values) are NaN
     return self.symbolic(prim, params, ins, eqn)
 
   def concrete(self, prim, params, ins):
@@ -172,6 +178,11 @@ class Interp:
       return self._bin(ins, 'mul')
     if name == 'div':
       if not is_sym(ins[1]) and np.any(np.asarray(ins[1]) == 0):
+        if OPTIONS.get('div0_to_nan') and isinstance(ins[0], PolyArr):
+          d = np.broadcast_to(np.asarray(ins[1], float), ins[0].shape)
+          zero = d == 0
+          res = ins[0].scale(1.0 / np.where(zero, 1.0, d)).select_rows(~zero)
+          return res.add(PolyArr.const(np.where(zero, np.nan, 0.0), ins[0].sp))
         raise NonFiniteConstant('division of symbolic data by a constant containing 0')
       return self._bin(ins, 'div')
     if name == 'neg':
